@@ -316,6 +316,74 @@ inline std::string build_g3(const Plan& plan, int* n_steps = nullptr, std::strin
   return d;
 }
 
+
+// ----------------------------------------- synthetic gama-local networks -----
+// Grammar-derived gama-local input (header `synth gkf`): a small consistent 3D network in the default conventions
+// (axes-xy="ne", left-handed angles, gons), values computed from the true positions with millimetre noise.
+//   kp id status coords       <point>: status 0 fix xyz, 1 adj xyz, 2 adj xy, 3 adj z, 4 adj XYZ, 5 fix xy adj z, 6 none;
+//                             coords 0 all given, 1 none, 2 x y only, 3 z only
+//   ko kind from to third v   one observation; consecutive observations of the same station share one <obs from=..>
+//                             kind 0 direction, 1 distance, 2 angle, 3 s-distance, 4 z-angle, 5 azimuth
+//   kh from to v              one <height-differences> cluster with one <dh>
+struct KPt { double x, y, z; };
+inline KPt gkf_point(int i)
+{
+  static const KPt T[] = {{1000, 1000, 100}, {1000, 1200, 102}, {1100, 1100, 103}, {1180, 1030, 98.5}, {1040, 1290, 104.2}, {920, 1110, 101.3}, {1110, 950, 99.1}, {1000.5, 1000.2, 100.1}};
+  return T[i % 8];
+}
+inline std::string build_gkf(const Plan& plan, int* n_steps = nullptr, std::string* shape = nullptr)
+{
+  const double PI = 3.14159265358979323846, RAD2GON = 200 / PI;
+  static const char* ID[] = {"A", "B", "C", "D", "E", "F", "G", "H"};
+  std::string d = "<?xml version=\"1.0\" ?>\n<gama-local xmlns=\"http://www.gnu.org/software/gama/gama-local\">\n<network axes-xy=\"ne\" angles=\"left-handed\">\n"
+                  "<parameters sigma-apr=\"10\" conf-pr=\"0.95\" tol-abs=\"1000\" sigma-act=\"apriori\" />\n"
+                  "<points-observations distance-stdev=\"5.0\" direction-stdev=\"10.0\" angle-stdev=\"10.0\" zenith-angle-stdev=\"10.0\" azimuth-stdev=\"10.0\">\n";
+  auto num = [](double v, int prec) { char b[64]; snprintf(b, sizeof b, "%.*f", prec, v); return std::string(b); };
+  auto gon = [&](double rad) { double g = rad * RAD2GON; while (g < 0) g += 400; while (g >= 400) g -= 400; return g; };
+  int n = 0, open_from = -1; if (shape) *shape = "gkfsyn:";
+  auto close_obs = [&]() { if (open_from >= 0) { d += "</obs>\n"; open_from = -1; } };
+  for (const Step& s : plan.steps) {
+    if (s.op == "kp") {
+      close_obs();
+      int i = (int)(s.arg(0) % 8); KPt p = gkf_point(i); long long st = s.arg(1) % 7, c = s.arg(2) % 4;
+      d += std::string("<point id=\"") + ID[i] + "\"";
+      if (c == 0 || c == 2) d += " x=\"" + num(p.x, 3) + "\" y=\"" + num(p.y, 3) + "\"";
+      if (c == 0 || c == 3) d += " z=\"" + num(p.z, 3) + "\"";
+      static const char* STAT[] = {" fix=\"xyz\"", " adj=\"xyz\"", " adj=\"xy\"", " adj=\"z\"", " adj=\"XYZ\"", " fix=\"xy\" adj=\"z\"", ""};
+      d += std::string(STAT[st]) + " />\n"; n++;
+      if (shape) *shape += fmt("p%lld%lld,", st, c);
+    } else if (s.op == "ko") {
+      static const char* K[] = {"direction", "distance", "angle", "s-distance", "z-angle", "azimuth"};
+      int k = (int)(s.arg(0) % 6), a = (int)(s.arg(1) % 8), b = (int)(s.arg(2) % 8), c = (int)(s.arg(3) % 8); long long v = s.arg(4);
+      KPt A = gkf_point(a), B = gkf_point(b), C = gkf_point(c);
+      double e = 0.001 * (double)(v % 7 - 3), dx = B.x - A.x, dy = B.y - A.y, dz = B.z - A.z, hd = std::sqrt(dx * dx + dy * dy);
+      auto bearing = [&](const KPt& T) { return std::atan2(T.y - A.y, T.x - A.x); };
+      if (open_from != a) { close_obs(); d += std::string("<obs from=\"") + ID[a] + "\">\n"; open_from = a; }
+      double ori = 0.37 * (a + 1);                        // the unknown orientation of the set of directions at A
+      std::string hts; if ((v / 7) % 6 == 1) hts += " from_dh=\"1.500\""; if ((v / 42) % 6 == 1) hts += " to_dh=\"1.300\"";
+      std::string sd = (v / 252) % 4 == 1 ? " stdev=\"7.5\"" : "";
+      switch (k) {
+        case 0: d += std::string("<direction to=\"") + ID[b] + "\" val=\"" + num(gon(bearing(B) - ori) + e * 0.01, 5) + "\"" + sd + " />\n"; break;
+        case 1: d += std::string("<distance to=\"") + ID[b] + "\" val=\"" + num(hd + e, 4) + "\"" + sd + " />\n"; break;
+        case 2: d += std::string("<angle bs=\"") + ID[b] + "\" fs=\"" + ID[c] + "\" val=\"" + num(gon(bearing(C) - bearing(B)) + e * 0.01, 5) + "\"" + sd + " />\n"; break;
+        case 3: d += std::string("<s-distance to=\"") + ID[b] + "\" val=\"" + num(std::sqrt(hd * hd + dz * dz) + e, 4) + "\"" + hts + sd + " />\n"; break;
+        case 4: d += std::string("<z-angle to=\"") + ID[b] + "\" val=\"" + num(gon(std::atan2(hd, dz)) + e * 0.01, 5) + "\"" + hts + sd + " />\n"; break;
+        default: d += std::string("<azimuth to=\"") + ID[b] + "\" val=\"" + num(gon(bearing(B)) + e * 0.01, 5) + "\"" + sd + " />\n";
+      }
+      n++; if (shape) *shape += fmt("o%d,", k);
+    } else if (s.op == "kh") {
+      close_obs();
+      int a = (int)(s.arg(0) % 8), b = (int)(s.arg(1) % 8); long long v = s.arg(2);
+      d += std::string("<height-differences>\n<dh from=\"") + ID[a] + "\" to=\"" + ID[b] + "\" val=\"" + num(gkf_point(b).z - gkf_point(a).z + 0.001 * (double)(v % 5 - 2), 4) + "\" stdev=\"2.0\" />\n</height-differences>\n";
+      n++; if (shape) *shape += "h,";
+    }
+  }
+  close_obs();
+  d += "</points-observations>\n</network>\n</gama-local>\n";
+  if (n_steps) *n_steps = n;
+  return d;
+}
+
 // ----------------------------------------------------------- enumeration -----
 // One enumerated sub-space: every sequence of `depth` events from `events` in every context of the alphabet.
 struct Ev { int tag; int kind; int variant; };
